@@ -197,6 +197,52 @@ impl Check for MatchCheck {
             }
             run.ops.push(pat_op(&p));
         }
+        {
+            // (own stream) wide patterns: a term over 11-14 distinct slots in no particular order (three
+            // leaves, half of the time under 2-4 binders) is inserted, and matched by itself as a pattern
+            // and by copies in which a late slot is identified with an earlier one (no match: a pattern
+            // slot stands for one e-graph slot). The crate's slot maps leave their inline storage at 10.
+            let mut wr = Rng::stream(seed, "wide-pattern");
+            if wr.chance(1, 10) {
+                let n = 11 + wr.below(4);
+                let mut names: Vec<S> = (40..40 + n as S).collect();
+                wr.shuffle(&mut names);
+                let k1 = 6;
+                let k2 = (n - 6).min(6);
+                let a = Tm::leaf("p6", names[..k1].to_vec());
+                let b = Tm::leaf(&format!("p{k2}"), names[k1..k1 + k2].to_vec());
+                let rest: Vec<S> = names[k1 + k2..].to_vec();
+                let c = if rest.is_empty() { Tm::leaf("p2", vec![names[0], names[n - 1]]) } else { Tm::leaf(&format!("p{}", rest.len() + 1), rest.iter().copied().chain([names[0]]).collect()) };
+                let mut t = Tm::node("t", vec![], vec![(vec![], a), (vec![], b), (vec![], c)]);
+                let nb = if wr.chance(1, 2) { 2 + wr.below(3) } else { 0 };
+                let mut bound: Vec<S> = names.clone();
+                wr.shuffle(&mut bound);
+                bound.truncate(nb);
+                let mut i = 0;
+                while i < bound.len() {
+                    if i + 1 < bound.len() && wr.chance(1, 2) {
+                        t = Tm::node("lam2", vec![], vec![(vec![bound[i], bound[i + 1]], t)]);
+                        i += 2;
+                    } else {
+                        t = Tm::node("lam", vec![], vec![(vec![bound[i]], t)]);
+                        i += 1;
+                    }
+                }
+                let pos = wr.below(run.ops.len() + 1);
+                run.ops.insert(pos, Op::new("add").t(t.clone()));
+                let p0 = Pat::from_tm(&t);
+                run.ops.push(pat_op(&p0));
+                for _ in 0..3 {
+                    // identify a slot that occurs late in the traversal with an earlier one
+                    let late = names[n - 1 - wr.below(3)];
+                    let early = names[wr.below(n - 3)];
+                    if late != early {
+                        run.ops.push(pat_op(&rename_pat_slot(&p0, late, early)));
+                    }
+                }
+                run.set("wide_pattern", 1);
+            }
+        }
         // patterns made from e-nodes as the e-graph lists them (with the class's internal slot names)
         for _ in 0..rng.range(0, 2) {
             run.ops.push(Op::new("enode_pattern").i(rng.below(64) as i64).i(rng.below(8) as i64).i(rng.below(4) as i64));
